@@ -404,6 +404,15 @@ func (m *c08Machine) binop(op token.Token, a, b c08AV) c08AV {
 			return c08AV{K: c08Bool, B: a.B != b.B}
 		}
 	}
+	// two string constants (e.g. the "" a helper returns for a non-XML node compared against "")
+	if a.K == c08ConstV && b.K == c08ConstV && strings.HasPrefix(a.S, "\"") && strings.HasPrefix(b.S, "\"") {
+		switch op {
+		case token.EQL:
+			return c08AV{K: c08Bool, B: a.S == b.S}
+		case token.NEQ:
+			return c08AV{K: c08Bool, B: a.S != b.S}
+		}
+	}
 	// node against nil
 	nodeNil := func(n, z c08AV) (known, isNil bool) {
 		if n.K == c08NodeV && z.K == c08NilPtr && m.nodes[n.N].nonNil {
